@@ -68,7 +68,9 @@ Emit == IF Len(steps) >= 2 /\ LastK \notin (ViewOps \cup {"New"}) THEN PrintT(<<
 
 (* the frame, as an action property of the specification: a step changes the heap only on the
    cells of its designated destination *)
-Dest(op) == CASE op.k \in {"Memset", "Zero", "UnsafeUn", "UnsafeBinK", "SetSweep", "Copy", "UnsafeBinT", "SetAt"} -> op.h
+Dest(op) == CASE op.k \in {"Memset", "Zero", "UnsafeUn", "UnsafeBinK", "SetSweep", "Copy", "UnsafeBinT", "SetAt",
+                         \* a physical transposition permutes values inside the tensor's own cells only
+                         "T", "Transpose", "Reshape"} -> op.h
               [] op.k = "CopyTo" -> op.a[1]
               [] OTHER -> 0
 Frame ==
